@@ -17,7 +17,7 @@ var purePkgPrefixes = []string{
 	"github.com/google/uuid", "reflect.TypeOf", "reflect.DeepEqual", "github.com/milvus-io/milvus/pkg/util/funcutil.ToPhysicalChannel",
 	"github.com/milvus-io/milvus/pkg/util/funcutil.GetVirtualChannel", "google.golang.org/protobuf/proto.Marshal", "google.golang.org/protobuf/proto.Size",
 	"github.com/golang/protobuf/proto.Marshal", "github.com/golang/protobuf/proto.Size", "github.com/zilliztech/milvus-cdc/server/metrics",
-	"github.com/goccy/go-json.Marshal", "encoding/json.Marshal",
+	"github.com/goccy/go-json.Marshal", "encoding/json.Marshal", "github.com/goccy/go-json.Unmarshal", "encoding/json.Unmarshal",
 	"github.com/milvus-io/milvus/pkg/util/lock", "github.com/milvus-io/milvus/pkg/util/typeutil", "github.com/milvus-io/milvus/pkg/util/funcutil",
 	"github.com/milvus-io/milvus/pkg/util/requestutil",
 	"github.com/milvus-io/milvus/pkg/util/retry.Attempts", "github.com/milvus-io/milvus/pkg/util/retry.Sleep", "github.com/milvus-io/milvus/pkg/util/retry.MaxSleepTime",
@@ -156,7 +156,12 @@ func (fc *FnCtx) call(ins ssa.Instruction, cc *ssa.CallCommon, res ssa.Value) {
 	}
 	if cc.IsInvoke() {
 		recv := fc.term(cc.Value)
-		fc.safety("nil-iface", posOf(ins), fmt.Sprintf("(not (= (itag %s) 0))", recv.t))
+		if g.isPureExternal("(" + types.TypeString(cc.Value.Type(), nil) + ")." + cc.Method.Name()) {
+			// interface values of logging/metrics libraries (e.g. prometheus gauges) are never nil
+			fc.assume(fmt.Sprintf("(not (= (itag %s) 0))", recv.t), "library interface value non-nil")
+		} else {
+			fc.safety("nil-iface", posOf(ins), fmt.Sprintf("(not (= (itag %s) 0))", recv.t))
+		}
 		c := g.findIfaceContract(cc.Value.Type(), cc.Method.Name())
 		name := "(" + types.TypeString(cc.Value.Type(), nil) + ")." + cc.Method.Name()
 		all := append([]Val{recv}, args...)
@@ -183,6 +188,14 @@ func (fc *FnCtx) call(ins ssa.Instruction, cc *ssa.CallCommon, res ssa.Value) {
 	if callee == nil {
 		// dynamic call through an unknown function value
 		fv := fc.term(cc.Value)
+		if types.TypeString(cc.Value.Type(), nil) == "context.CancelFunc" {
+			fc.g.trusted["context.CancelFunc calls have no effect on the verified state"] = true
+			setResult(nil)
+			return
+		}
+		if fc.funcResultCall(ins, cc, args, setResult) {
+			return
+		}
 		// calls through nil function values are not part of the no-panic sweep (function-typed fields and
 		// dispatch tables are filled by constructors); listed as an assumption
 		fc.g.note("dynamic calls: the function value is assumed non-nil")
@@ -223,7 +236,21 @@ func (fc *FnCtx) unknownCall(ins ssa.Instruction, name string, sig *types.Signat
 		g.trusted["modifies-nothing (logging/formatting/metrics/time): "+pkgOfName(name)] = true
 	} else {
 		g.note("havoc (no contract): " + shortPkg(name))
+		keep := map[string]string{}
+		if cc := callCommonOf(ins); cc != nil && !cc.IsInvoke() {
+			if sc := cc.StaticCallee(); sc != nil && sc.Blocks == nil && sc.Pkg == nil {
+				// a function of another module cannot reach the ghost state (it changes only through contracts)
+				for _, k := range g.keyOrder {
+					if ki := g.keys[k]; ki.kind == "ghost" || ki.kind == "umap" {
+						keep[k] = g.get(fc.cur, k)
+					}
+				}
+			}
+		}
 		g.havocAll(fc.cur, name)
+		for k, v := range keep {
+			fc.cur.m[k] = v
+		}
 	}
 	var rs []Val
 	for i := 0; i < sig.Results().Len(); i++ {
@@ -502,6 +529,11 @@ func (fc *FnCtx) applyContract(ins ssa.Instruction, c *Contract, name string, si
 			g.havocKey(fc.cur, "$alloc", name)
 			fc.assume(fmt.Sprintf("(<= %s %s)", oa, g.get(fc.cur, "$alloc")), "alloc grows")
 		}
+		for _, t := range targets {
+			if t.whole && g.keys[t.key].ref != "" {
+				g.heapBound(t.key, g.get(fc.cur, t.key), g.get(fc.cur, "$alloc"))
+			}
+		}
 	}
 	// results
 	var rs []Val
@@ -532,6 +564,21 @@ func (fc *FnCtx) applyContract(ins ssa.Instruction, c *Contract, name string, si
 		}
 		fc.boundRefs(rt, n)
 		rs = append(rs, Val{t: n, ty: rt})
+	}
+	if c.FuncParams != nil {
+		if fc.callContracts == nil {
+			fc.callContracts = map[ssa.Instruction]*Contract{}
+		}
+		fc.callContracts[ins] = c
+		root := fc
+		for root.parent != nil {
+			root = root.parent
+		}
+		for i, r := range rs {
+			if fp, ok := c.FuncParams[fmt.Sprintf("result%d", i)]; ok {
+				root.funcVals = append(root.funcVals, funcVal{term: r.t, c: fp, name: c.Key + ".result" + fmt.Sprint(i)})
+			}
+		}
 	}
 	// post
 	penv := env.sub()
@@ -835,4 +882,69 @@ func constSliceLen(v ssa.Value) (int, bool) {
 // hooks filled in by later files
 func (fc *FnCtx) special(ins ssa.Instruction, callee *ssa.Function, cc *ssa.CallCommon, args []Val, setResult func([]Val)) bool {
 	return fc.specialCall(ins, callee, cc, args, setResult)
+}
+
+// funcResultCall: a call through a function value that was returned by a contracted call whose
+// contract describes it (`funcparam resultN ...`).
+func (fc *FnCtx) funcResultCall(ins ssa.Instruction, cc *ssa.CallCommon, args []Val, setResult func([]Val)) bool {
+	ex, ok := cc.Value.(*ssa.Extract)
+	if !ok {
+		return fc.funcValCall(ins, cc, args, setResult)
+	}
+	src, ok := ex.Tuple.(ssa.Instruction)
+	if !ok {
+		return false
+	}
+	for c := fc; c != nil; c = c.parent {
+		if k, ok := c.callContracts[src]; ok {
+			if fp, ok := k.FuncParams[fmt.Sprintf("result%d", ex.Index)]; ok {
+				setResult(fc.applyContract(ins, fp, k.Key+".result"+fmt.Sprint(ex.Index), cc.Signature(), args, false, nil))
+				return true
+			}
+		}
+	}
+	return false
+}
+
+type funcVal struct {
+	term string
+	c    *Contract
+	name string
+}
+
+// funcValCall: the called function value may be one of the function values returned by contracted
+// calls earlier (possibly passed through local variables): if it is that value its contract applies,
+// otherwise the call is unknown (havoc).  Only the single-candidate case is handled.
+func (fc *FnCtx) funcValCall(ins ssa.Instruction, cc *ssa.CallCommon, args []Val, setResult func([]Val)) bool {
+	g := fc.g
+	root := fc
+	for root.parent != nil {
+		root = root.parent
+	}
+	if len(root.funcVals) != 1 {
+		return false
+	}
+	fvl := root.funcVals[0]
+	v := fc.term(cc.Value)
+	sig := cc.Signature()
+	cond := g.def(fc.prefix+"isfn", "Bool", fmt.Sprintf("(= %s %s)", v.t, fvl.term))
+	before := fc.cur.clone()
+	reach0 := fc.curReach
+	// branch A: it is the contracted function value
+	fc.curReach = g.def(fc.prefix+"fnA", "Bool", fmt.Sprintf("(and %s %s)", reach0, cond))
+	rsA := fc.applyContract(ins, fvl.c, fvl.name, sig, args, false, nil)
+	stA, reachA := fc.cur, fc.curReach
+	// branch B: some other function
+	fc.cur = before
+	fc.curReach = g.def(fc.prefix+"fnB", "Bool", fmt.Sprintf("(and %s (not %s))", reach0, cond))
+	rsB := fc.unknownCall(ins, "dynamic call "+cc.Value.Name(), sig, false)
+	stB, reachB := fc.cur, fc.curReach
+	fc.cur = g.mergeStates([]string{reachA, reachB}, []*State{stA, stB})
+	fc.curReach = g.def(fc.prefix+"fnAB", "Bool", fmt.Sprintf("(or %s %s)", reachA, reachB))
+	var rs []Val
+	for i := range rsA {
+		rs = append(rs, Val{t: mergeVals(g, []string{reachA, reachB}, []string{rsA[i].t, rsB[i].t}, g.sortOf(rsA[i].ty)), ty: rsA[i].ty})
+	}
+	setResult(rs)
+	return true
 }
